@@ -11,7 +11,7 @@ import impl_model as im
 from gen import structures as gs
 from props import sdm_common as sc
 
-THEOREMS = ['C14_needed_symmetry_good', 'C14_packer_good', 'C14_grow_images_exact', 'C14_packer_no_coincide']
+THEOREMS = ['C14_needed_symmetry_good', 'C14_packer_good', 'C14_grow_images_exact', 'C14_packer_no_coincide', 'C14_needed_symmetry_complete', 'C14_packer_complete']
 SH2 = list(itertools.product(range(-2, 3), repeat=3))
 
 
@@ -270,7 +270,7 @@ def run(ctx):
                        'operators x translations in [-2,2]^3; all random, hence distinct')
     ctx.notes.setdefault('coverage_extra', {})['structures'] = nstruct
     ctx.assumptions += ['operator list from the implementation (C11), SDM items as in C13',
-                        'completeness of grow() is not proved: checked per sample by brute force',
+                        'completeness of grow() is proved for the model relative to its own contact search (C14_needed_symmetry_complete, C14_packer_complete); that this search sees every bonded image is the minimum-image question of C13 (known finding) and is checked per sample by brute force',
                         'float instance of the model mirrored on the same doubles (tolerance 2^-30)']
 
 
